@@ -254,6 +254,103 @@ pub fn run_recorded_case(which: Which, l: &mut Local, dict: &Dict, idx: usize, n
     }
 }
 
+/// File level: FileDicomObject::write_all then from_reader (C01) / independent file parse (C04).
+pub fn run_file_case(which: Which, l: &mut Local, dict: &Dict, idx: usize, nodes: &[Node]) {
+    use dicom_object::{FileMetaTableBuilder, OpenFileOptions};
+    let desc = describe(nodes);
+    let expected = to_ref(nodes, 0);
+    for (ti, uid) in TS4.iter().enumerate() {
+        let case_id = format!("file/ds{idx}/ts{ti}");
+        if !l.want(&case_id) {
+            continue;
+        }
+        l.eval();
+        l.nontrivial(&case_id);
+        let base = class_with(&desc, json!({"ts": uid, "mode": "write_all", "recorded": false}));
+        let detail = |m: String| json!({"dataset": labels(nodes), "message": m});
+        let obj = to_obj(nodes);
+        let built = guard(|| {
+            obj.with_meta(
+                FileMetaTableBuilder::new()
+                    .transfer_syntax(*uid)
+                    .media_storage_sop_class_uid("1.2.840.10008.5.1.4.1.1.7")
+                    .media_storage_sop_instance_uid("1.2.3.4"),
+            )
+            .map_err(|e| format!("{e:?}"))
+        });
+        let file = match built {
+            Ok(Ok(f)) => f,
+            Ok(Err(e)) => {
+                // a data set whose SOP Instance UID attribute is not a plain string cannot get a meta table: not a file case
+                l.outcome("with_meta-refused");
+                let _ = e;
+                continue;
+            }
+            Err(p) => {
+                l.fail(&case_id, class_with(&base, json!({"stage": "with_meta", "kind": "panic"})), detail(p));
+                continue;
+            }
+        };
+        let mut bytes = vec![];
+        match guard(|| file.write_all(&mut bytes).map_err(|e| format!("{e:?}").chars().take(300).collect::<String>())) {
+            Ok(Ok(())) => {}
+            Ok(Err(e)) => {
+                l.outcome("write-err");
+                l.fail(&case_id, class_with(&base, json!({"stage": "write", "kind": "err"})), detail(e));
+                continue;
+            }
+            Err(p) => {
+                l.outcome("write-panic");
+                l.fail(&case_id, class_with(&base, json!({"stage": "write", "kind": "panic"})), detail(p));
+                continue;
+            }
+        }
+        match which {
+            Which::C01 => {
+                let back = guard(|| OpenFileOptions::new().from_reader(&bytes[..]).map_err(|e| format!("{e:?}").chars().take(300).collect::<String>()));
+                match back {
+                    Ok(Ok(f)) => {
+                        let mode = if ti == 0 { VrMode::Implicit } else { VrMode::Explicit };
+                        let ts_back = f.meta().transfer_syntax().trim_end_matches('\0').to_string();
+                        if ts_back != *uid {
+                            l.fail(&case_id, class_with(&base, json!({"stage": "compare", "kind": "mismatch", "what": "meta transfer syntax"})), detail(ts_back));
+                            continue;
+                        }
+                        match compare(&expected, &canon(&f), mode, dict, false) {
+                            Ok(()) => l.outcome("file-roundtrip-equal"),
+                            Err(m) => {
+                                l.outcome("file-roundtrip-differs");
+                                l.fail(&case_id, class_with(&base, json!({"stage": "compare", "kind": "mismatch", "what": m.split(':').next().unwrap_or("")})), detail(m));
+                            }
+                        }
+                    }
+                    Ok(Err(e)) => {
+                        l.outcome("read-err");
+                        l.fail(&case_id, class_with(&base, json!({"stage": "read", "kind": "err"})), detail(e));
+                    }
+                    Err(p) => {
+                        l.outcome("read-panic");
+                        l.fail(&case_id, class_with(&base, json!({"stage": "read", "kind": "panic"})), detail(p));
+                    }
+                }
+            }
+            Which::C04 => match vx_ref::ds::parse_file_head(&bytes) {
+                Err(e) => {
+                    l.outcome("file-head-invalid");
+                    l.fail(&case_id, class_with(&base, json!({"stage": "parse-meta", "kind": "invalid"})), detail(e.to_string()));
+                }
+                Ok(head) => {
+                    if head.ts_uid != *uid {
+                        l.fail(&case_id, class_with(&base, json!({"stage": "parse-meta", "kind": "mismatch", "what": "transfer syntax"})), detail(head.ts_uid.clone()));
+                        continue;
+                    }
+                    check_wire(l, &case_id, &base, dict, ti, &bytes[head.dataset_offset..], &expected, false, nodes);
+                }
+            },
+        }
+    }
+}
+
 pub fn run(which: Which, check: &Check) {
     let dict = Dict::load();
     let uni = universe(check);
@@ -262,5 +359,6 @@ pub fn run(which: Which, check: &Check) {
         let nodes = &uni[i as usize];
         run_api_case(which, l, &dict, i as usize, nodes);
         run_recorded_case(which, l, &dict, i as usize, nodes);
+        run_file_case(which, l, &dict, i as usize, nodes);
     });
 }
